@@ -31,7 +31,7 @@ FUNCTIONS = ['emd.cycles._unique_inds', 'emd.cycles.kdt_match (whole function: g
 ASSUMPTIONS = [
     'floats are mathematical reals; numpy ints unbounded',
     'assumed numpy contracts (cross-checked natively): sort (non-decreasing permutation), where (as a function of the compared value), boolean-mask gather, != on shifted slices, argmax(axis=1), argmin (an index in range holding a minimum; a function of its argument), sum, sum(mask, axis=1) (per-row count: 0..ncols, positive iff the row has a True entry), out[index_list] = values (position r written iff r is in the list, with the value of some occurrence), int_array != inf (all True), zeros, unique (shape only)',
-    'assumed scipy contract: cKDTree(y).query(x, k=K, distance_upper_bound=b) returns D, inds of shape (n,K) ((n,) when K == 1) with 0 <= inds <= len(y) and inds < len(y) => D <= b',
+    'assumed scipy contract: cKDTree(y).query(x, k=K, distance_upper_bound=b) with eps == 0 and p == 2 (both obligations at the call; workers is ignored) returns the K nearest neighbours in the Euclidean distance: D, inds of shape (n,K) ((n,) when K == 1) with 0 <= inds <= len(y) and inds < len(y) => D <= b',
     'kdt_match calls _unique_inds through its contract (modular): the clauses assumed at the call site are the postconditions the unit _unique_inds discharges',
     '`selected` (a python list used as a set: extend / in) is a ghost set; `a in b` is rewritten mechanically to a call that answers natively for native operands',
     '_unique_inds: "every input value is represented in uni" rests on a least-index induction over the sorted copy (start of the run of equal values): base and step are lemmas of this check (least-index:base / :step); the induction principle itself is applied by the harness, which assumes the claim for every position',
@@ -118,8 +118,15 @@ class KDTreeStub:
         self.n = core._c_or_s(y.shape_e[0])            # cKDTree attributes: number of data points / of dimensions
         self.m = core._c_or_s(y.shape_e[1]) if y.ndim == 2 else 1
 
-    def query(self, x, k=1, distance_upper_bound=None):
+    def query(self, x, k=1, eps=0, p=2, distance_upper_bound=None, workers=1):
+        # the library's real signature. The assumed contract below ("the K columns are the K nearest neighbours in the Euclidean distance") is the
+        # one of an EXACT search in the 2-norm: eps > 0 only guarantees the k-th returned neighbour within (1 + eps) of the true one, another p is
+        # another metric - so both are preconditions of the contract and obligations at the call (clause of the property: every matched candidate
+        # is among the K nearest neighbours of its partner)
         c = core.C()
+        if not core.Ctx.spec:
+            c.oblige('cKDTree.query:requires-exact-search(eps == 0)', lift(eps) == 0, 'pre')
+            c.oblige('cKDTree.query:requires-euclidean-metric(p == 2)', lift(p) == 2, 'pre')
         nx = x.shape_e[0]
         ny = self.y.shape_e[0]
         kk = core.concrete(k)
